@@ -422,4 +422,27 @@ def monC07 : ObsMonitor Obs M7 where
                       dead := m.dead.map fun x => (x.1, x.2.1, true)
                       cleared := m.cleared.map fun _ => true }
 
+/-! ## C07, first clause, in the form that is proved for every model trace (`C07a_obs`) -/
+
+/-- runs seen so far: key, constructor generation (`data`), still inside the routine function -/
+structure M7a where
+  runs : List (Nat × Nat × Bool) := []
+deriving Repr
+
+/-- no two routine functions built by the same constructor call for the same key (i.e. of the same
+record: restarts by `RestartRoutine`, `SetKey(start)`, `SyncKeys(restart)`, `SetContext`, retries) are
+inside `cbin`…`cbout` together -/
+def monC07a : ObsMonitor Obs M7a where
+  init := {}
+  step := fun m o =>
+    match o with
+    | .cbin j k d =>
+      if j = m.runs.length ∧ (m.runs.any fun r => r.1 == k && r.2.1 == d && r.2.2) = false
+      then some { runs := m.runs ++ [(k, d, true)] } else none
+    | .cbout j _ =>
+      match m.runs[j]? with
+      | some (k, d, true) => some { runs := m.runs.set j (k, d, false) }
+      | _ => none
+    | _ => some m
+
 end UtilModel.Keyed
